@@ -87,4 +87,7 @@ def family(name, inputs, outputs):
         if len(s) == 1 and len(c) == 1:
             return {s[0]: lambda env: _xor([env[p] for p in inputs]),
                     c[0]: lambda env: sum(1 for p in inputs if env[p]) >= 2}
+    if re.fullmatch(r'DEC24', base) and len(inputs) == 2 and len(outputs) == 4:
+        # 2-to-4 decoder: output k is 1 iff the address (inputs[0] = least significant bit) equals k
+        return {o: (lambda env, k=k: ((1 if env[inputs[0]] else 0) + (2 if env[inputs[1]] else 0)) == k) for k, o in enumerate(outputs)}
     return None
